@@ -134,9 +134,19 @@ U.subprocess = Proxy(subprocess, {'check_output': Sums.check_output})
 _shelf_set = shelve.Shelf.__setitem__
 
 
+WF = {'left': 0, 'hit': 0}
+
+
 def _setitem(self, key, value):
     if DBI().tables.prime is self:
         Steps.tick('record')
+    elif WF['left']:
+        # a write to one of the catalogue tables is refused by the file system
+        # (no space, quota, I/O error); the database process carries on
+        WF['left'] -= 1
+        if not WF['left']:
+            WF['hit'] += 1
+            raise OSError(28, 'No space left on device')
     return _shelf_set(self, key, value)
 
 
@@ -392,11 +402,18 @@ def run_history(ops, root):
     DBI().open()
     obs = []
     try:
+        faulty = any(o.get('wfail') for o in ops)
         for o in ops:
-            rep = do_op(o)
+            WF['left'], h0 = int(o.get('wfail') or 0), WF['hit']
+            try:
+                rep = do_op(o)
+            finally:
+                WF['left'] = 0
             ob = observe()
             ob['reply'] = rep
-            if o['op'] == 'reopen':
+            if o.get('wfail'):
+                ob['write_refused'] = WF['hit'] > h0
+            if o['op'] == 'reopen' or faulty:
                 ob['dump'] = full_dump()
             obs.append(ob)
         fin = full_dump()
